@@ -281,17 +281,40 @@ def dump_pose(pose):
     return out
 
 
+def _scribble(pose):
+    """what the owner of an earlier result may do with it: edit header and body in place.  Reads are history independent
+    (the memo holds its own copy), so this must not influence any later read; a memo that shares state with a returned
+    pose shows up as a concrete wrong header in the check that primed it."""
+    def attempt(f):
+        try:
+            f()
+        except Exception:
+            pass
+    h = pose.header
+    attempt(lambda: setattr(h.dimensions, "width", (h.dimensions.width or 0) + 7))
+    attempt(lambda: setattr(h.dimensions, "height", 1))
+    for c in list(h.components):
+        attempt(lambda c=c: setattr(c, "name", c.name + "~"))
+        attempt(lambda c=c: c.points.__setitem__(0, c.points[0] + "~"))
+        attempt(lambda c=c: c.limbs.__setitem__(0, (c.limbs[0][1], c.limbs[0][0] + 1)))
+        attempt(lambda c=c: c.colors.__setitem__(0, (9, 9, 9)))
+    attempt(lambda: h.components.reverse())
+    attempt(lambda: pose.body.data.__setitem__(Ellipsis, 3.0))
+    attempt(lambda: pose.body.confidence.__setitem__(Ellipsis, 0.25))
+    attempt(lambda: setattr(pose.body, "fps", 1.0))
+
+
 def set_memo(state, other_bytes=None, same_bytes=None):
     from pose_format import Pose
     from pose_format.pose_header import PoseHeaderCache
     PoseHeaderCache.clear_cache()
     if state == "same" and same_bytes is not None:
         try:
-            Pose.read(bytes(same_bytes))
+            _scribble(Pose.read(bytes(same_bytes)))
         except Exception:
             pass
     elif state == "other" and other_bytes is not None:
-        Pose.read(bytes(other_bytes))
+        _scribble(Pose.read(bytes(other_bytes)))
 
 
 def impl_read(data, kind="bytes", args=None, counting=False):
